@@ -18,9 +18,10 @@ import (
 // without the ID-delta prediction to find out which of the two calls is fatal, and the outcome "fatal" is recorded.
 
 type workerReq struct {
-	Text       string `json:"text"`
-	Op         Op     `json:"op"`
-	SkipDeltas bool   `json:"skipDeltas"`
+	Text       string   `json:"text"`
+	Op         Op       `json:"op"`
+	SkipDeltas bool     `json:"skipDeltas"`
+	Hist       *histReq `json:"hist,omitempty"`
 }
 
 func IsWorker() bool { return os.Getenv("D2V_EDIT_WORKER") == "1" }
@@ -37,8 +38,14 @@ func WorkerLoop() {
 				fmt.Fprintln(os.Stderr, "worker: bad request:", e)
 				os.Exit(4)
 			}
-			rec, newText := step(rq.Text, rq.Op, rq.SkipDeltas)
-			rec["newTextOut"] = newText
+			var rec map[string]any
+			if rq.Hist != nil {
+				rec = runHistory(*rq.Hist)
+			} else {
+				var newText string
+				rec, newText = step(rq.Text, rq.Op, rq.SkipDeltas)
+				rec["newTextOut"] = newText
+			}
 			b, e := json.Marshal(rec)
 			if e != nil {
 				fmt.Fprintln(os.Stderr, "worker: marshal:", e)
@@ -233,4 +240,17 @@ func (p *Pool) Step(text string, op Op) (rec map[string]any, newText string, err
 	newText, _ = rec["newTextOut"].(string)
 	delete(rec, "newTextOut")
 	return rec, newText, nil
+}
+
+// History runs one chained history in the worker; a worker death is recorded as the outcome of the whole history.
+func (p *Pool) History(rq histReq) (map[string]any, error) {
+	rec, died, why, err := p.try(workerReq{Hist: &rq})
+	if err != nil {
+		return nil, err
+	}
+	if died {
+		return map[string]any{"k": "hist", "in": map[string]any{"text": rq.Text, "ops": rq.Ops, "seed": rq.Seed, "n": rq.N},
+			"out": map[string]any{"fatal": why, "steps": []any{}}}, nil
+	}
+	return rec, nil
 }
